@@ -202,6 +202,29 @@ func (c *streamCtx) dirBranches(kind string) []genCase {
 			}
 		}
 	}
+	if kind == "annot" {
+		// max_node_age enabled, the group exactly at its minimum, two tainted nodes of which one is protected — in both lister orders
+		for i, pct := range []int64{250, 55, 5, 120} {
+			for order := 0; order < 2; order++ {
+				idx++
+				s := newSpec(c.base, nsOffsets[idx%3])
+				b := s.group("g1")
+				b.o.MinNodes, b.o.MaxNodeAge, b.o.MaxNodes, b.asgMax = 2, "24h", 12, 12
+				b.node(0, 1000)
+				b.node(1, 1200)
+				age := []int64{100, 1000, 1000, 400}[i]
+				for k := 0; k < 2; k++ {
+					n := b.node(2+k, int64(5000+100*k), escAge(c.base, age))
+					if k == order {
+						applyAnnot(n, strp("true"))
+					}
+				}
+				b.util(pct, 0, true, false)
+				b.done()
+				out = append(out, single(s, fmt.Sprintf("annot max_node_age at the minimum, protected tainted node at position %d, band %d", order, pct)))
+			}
+		}
+	}
 	return out
 }
 
